@@ -179,18 +179,24 @@ func knownSlowShape(src []byte) string {
 // far from proportional.
 func scalingVerdict(sh shape, v px.Ver) (bad bool, msg string, hang bool, big []byte) {
 	s1, s2 := sh.build(scaleBase), sh.build(scaleBase*scaleFactor)
-	t1 := parseTimed(s1, v, 60*time.Second)
-	if t1.hang || t1.panic != "" {
-		return true, fmt.Sprintf("size %d: hang=%v panic=%s", len(s1), t1.hang, t1.panic), t1.hang, s1
-	}
+	// the middle size first: a shape whose 96 KiB parse stays under 40 ms of CPU time cannot satisfy
+	// the verdict below (it needs > 40 ms there), so the other sizes need not be measured at all
 	t2 := parseTimed(s2, v, 120*time.Second)
 	if t2.hang || t2.panic != "" {
 		return true, fmt.Sprintf("size %d: hang=%v panic=%s", len(s2), t2.hang, t2.panic), t2.hang, s2
 	}
-	harness.EvalN(2)
+	harness.EvalN(1)
+	if t2.cpu < 40*time.Millisecond {
+		return false, "", false, nil
+	}
+	t1 := parseTimed(s1, v, 60*time.Second)
+	if t1.hang || t1.panic != "" {
+		return true, fmt.Sprintf("size %d: hang=%v panic=%s", len(s1), t1.hang, t1.panic), t1.hang, s1
+	}
+	harness.EvalN(1)
 	slack := 2 * time.Millisecond
 	r12 := float64(t2.cpu) / float64(t1.cpu+slack)
-	if r12 <= scaleRatio || t2.cpu < 40*time.Millisecond {
+	if r12 <= scaleRatio {
 		return false, "", false, nil
 	}
 	// suspicious. Measure again before believing it: the first parse of a size pays for memory the
@@ -273,6 +279,57 @@ func TestRepetitionScaling(t *testing.T) {
 			harness.Fail(rt, "superlinear", big, m, "[%s] %s: %s", v, sh, msg)
 		}
 	})
+}
+
+// TestUnitSweep is the exhaustive base layer under the drawn search: every lexical context of
+// scalePrefixes x every single fragment of scaleUnits and of the hostile dictionary, repeated to
+// 96 KiB (and measured at the other sizes when that is slow). A run of one fragment — blanks inside a
+// heredoc, backslashes inside a string, "<" in HTML — is the commonest way into a look-behind or
+// look-ahead helper's worst case, and the drawn search meets a given (context, fragment) pair only
+// about once in 10 000 cases. The quick tier measures each pair under one of the three versions
+// (rotating with the seed), the thorough tier under all of them.
+func TestUnitSweep(t *testing.T) {
+	units := append(append([]string{}, scaleUnits...), inputs.Dict...)
+	seen := map[string]bool{}
+	vers := []px.Ver{px.V56, px.V72, px.V74}
+	idx := 0
+	for _, prefix := range scalePrefixes {
+		for _, u := range units {
+			key := prefix + "\x00" + u
+			if seen[key] || u == "" {
+				continue
+			}
+			seen[key] = true
+			idx++
+			if !harness.MyShare(idx) {
+				continue
+			}
+			sh := shape{prefix: prefix, unit: u}
+			if k := knownSlowShape(sh.build(scaleBase)); k != "" {
+				harness.Excluded(k)
+				continue
+			}
+			vs := vers
+			if !harness.Thorough() {
+				vs = []px.Ver{vers[(idx+int(harness.Seed()))%3]}
+			}
+			for _, v := range vs {
+				harness.Class("unit-sweep")
+				harness.NonTrivial([]byte("sweep/"+v.String()+sh.String()), "")
+				bad, msg, hang, big := scalingVerdict(sh, v)
+				if bad {
+					harness.Failf(t, "unit-sweep/superlinear", big, sh.meta(meta(v, true)), "[%s] %s: %s", v, sh, msg)
+					if hang {
+						harness.FlushAndExit(1)
+					}
+					return
+				}
+			}
+		}
+	}
+	if harness.Thorough() {
+		harness.Exhaustive(fmt.Sprintf("repetition of every single fragment (%d) in every lexical context (%d) under 5.6, 7.2 and 7.4", len(units), len(scalePrefixes)))
+	}
 }
 
 // TestKnownSlowShapes re-measures the reproducer of each open scaling finding: while it is still
